@@ -84,7 +84,7 @@ def suite_repr(tier: str, seed: int, mult: int) -> SuiteResult:
     d = Driver()
     work = Path(tempfile.mkdtemp(prefix="bbverif-c04-", dir=SCRATCH))
     cnt = {"datasets": 0, "variants": 0, "packed": 0, "path": 0, "list": 0, "array": 0, "multi_call": 0, "subprocess": 0,
-           "F_not_multiple_of_8": 0}
+           "F_not_multiple_of_8": 0, "interfering_estimators": 0}
     try:
         n_sets = (40 if tier == "quick" else 500) * mult
         for k in range(n_sets):
@@ -102,6 +102,16 @@ def suite_repr(tier: str, seed: int, mult: int) -> SuiteResult:
                 ncuts = rng.choice([0, 0, 1, 2, 3])
                 variant = {"packed": rng.random() < 0.5, "kind": rng.choice(["array", "list", "path", "str"]),
                            "dtype": rng.choice(INT_DTYPES), "cuts": sorted(rng.sample(range(1, len(rows)), min(ncuts, len(rows) - 1)))}
+                if v % 2 == 1:
+                    # unrelated activity in the same process: another estimator with the same parameters is reconfigured and used
+                    u = fit_variant(cfg, rows[: max(2, len(rows) // 2)], F, {"packed": False, "kind": "array", "dtype": "uint8", "cuts": []},
+                                    work, f"d{k}u{v}")
+                    try:
+                        u.set_merge(tolerance=rng.choice([0.0, 0.3, 0.9]), threshold=rng.choice([0.1, 0.95]))
+                    except ValueError:
+                        u.set_merge(threshold=rng.choice([0.1, 0.95]))
+                    u.fit(np.asarray(rows, dtype=np.uint8).reshape(len(rows), F), input_is_packed=False)
+                    cnt["interfering_estimators"] += 1
                 t = fit_variant(cfg, rows, F, variant, work, f"d{k}v{v}")
                 io = impl_out(t)
                 res.evaluations += 1
@@ -149,7 +159,7 @@ def suite_pages(tier: str, seed: int, mult: int) -> SuiteResult:
     res = SuiteResult("S-PAGES")
     d = Driver()
     work = Path(tempfile.mkdtemp(prefix="bbverif-pages-", dir=SCRATCH))
-    cnt = {"files": 0, "releasable": 0, "not_releasable": 0, "madvise_calls": 0, "max_rows": 0}
+    cnt = {"files": 0, "releasable": 0, "not_releasable": 0, "madvise_calls": 0, "max_rows": 0, "with_prior_fit": 0}
     P = mmap.PAGESIZE * 512
     try:
         # (bytes per row, dtype, rows): sizes on both sides of the 2 MiB granularity
@@ -157,7 +167,8 @@ def suite_pages(tier: str, seed: int, mult: int) -> SuiteResult:
                   (100, "uint8", 3000), (64, "uint8", 40000), (256, "uint16", 9000), (32, "uint8", 70000)]
         if tier == "quick":
             shapes = [shapes[i] for i in (1, 2, 3, 5, 7)]
-        for ncols, dt, nrows in shapes * mult:
+        plan = [(sh, pk) for sh in shapes for pk in (["none", None] if tier == "quick" else ["none", "array", "file", "list"])]
+        for (ncols, dt, nrows), pk in plan * mult:
             packed = dt == "uint8"
             rs = np.random.default_rng(rng.randrange(2 ** 32))
             # few distinct rows -> quick merges; never-merge would grow the tree needlessly
@@ -166,12 +177,14 @@ def suite_pages(tier: str, seed: int, mult: int) -> SuiteResult:
             path = work / f"p{cnt['files']}.npy"
             np.save(path, X)
             calls = []
-            state = {"X": None, "row": 0}
+            state = {"X": None, "prior": 0, "tree": None}
             real_madv, real_from, real_should = mem._madvise_dontneed, mem._ArrayMemPagesManager.from_bb_input, \
                 mem._ArrayMemPagesManager.should_release_curr_page
 
             def madv(addr, size):
-                calls.append((int(addr), int(size), state["row"]))
+                # the cursor is counted independently of the argument the code passes to its own release test:
+                # rows of THIS file that have been inserted when the release happens
+                calls.append((int(addr), int(size), state["tree"].num_fitted_fps - state["prior"]))
                 return real_madv(addr, size)
 
             def from_input(X_, can_release=None):
@@ -179,7 +192,6 @@ def suite_pages(tier: str, seed: int, mult: int) -> SuiteResult:
                 return real_from(X_, can_release)
 
             def should(self, row_idx):
-                state["row"] = row_idx
                 return real_should(self, row_idx)
 
             mem._madvise_dontneed = madv
@@ -189,6 +201,22 @@ def suite_pages(tier: str, seed: int, mult: int) -> SuiteResult:
             real_mgr = bb._ArrayMemPagesManager
             try:
                 t = BitBirch(threshold=0.0, branching_factor=50, merge_criterion="diameter")
+                state["tree"] = t
+                # earlier fit calls on the same estimator (array, list or another file) must not shift the release points
+                prior_kind = pk if pk is not None else rng.choice(["array", "file", "list"])
+                if prior_kind != "none":
+                    kprior = rng.choice([1, 7, 1000, 5000])
+                    Xp = X[:kprior]
+                    if prior_kind == "file":
+                        np.save(work / "prior.npy", Xp)
+                        t.fit(work / "prior.npy", input_is_packed=packed, n_features=None)
+                    elif prior_kind == "list":
+                        t.fit([r for r in Xp], input_is_packed=packed, n_features=None)
+                    else:
+                        t.fit(Xp, input_is_packed=packed, n_features=None)
+                    cnt["with_prior_fit"] += 1
+                state["prior"] = t.num_fitted_fps
+                calls.clear()
                 t.fit(path, input_is_packed=packed, n_features=None)
                 Xm = state["X"]
                 base = int(Xm.ctypes.data) - int(Xm.offset)
@@ -220,12 +248,12 @@ def suite_pages(tier: str, seed: int, mult: int) -> SuiteResult:
                 if not (a >= base and a + s <= base + fsize and a + s <= base + offset + r * row_bytes and (a - base) % P == 0 and s == P):
                     res.failures.append({"signature": "C04:memory-released-outside-the-file-or-ahead-of-the-read-cursor",
                                          "what": f"madvise({a - base}+base, {s}) after row {r}; file {fsize} B, row {row_bytes} B, offset {offset}",
-                                         "case": {"ncols": ncols, "dtype": dt, "nrows": nrows}})
+                                         "case": {"ncols": ncols, "dtype": dt, "nrows": nrows, "prior_fit": prior_kind}})
                     break
             if len(set(c[0] for c in calls)) != len(calls):
                 res.failures.append({"signature": "C04:page-released-twice", "what": str(calls[:4]), "case": {"ncols": ncols, "nrows": nrows}})
-            if t.num_fitted_fps != nrows:
-                res.failures.append({"signature": "C04:rows-lost-while-releasing-pages", "what": f"{t.num_fitted_fps} of {nrows}", "case": {}})
+            if t.num_fitted_fps - state["prior"] != nrows:
+                res.failures.append({"signature": "C04:rows-lost-while-releasing-pages", "what": f"{t.num_fitted_fps - state['prior']} of {nrows}", "case": {}})
             if len(res.samples) < 2:
                 res.samples.append({"ncols": ncols, "dtype": dt, "nrows": nrows, "calls": [(a - base, s, r) for a, s, r in calls]})
             path.unlink()
